@@ -165,6 +165,7 @@ class Analyzer:
         self.in_progress.add(key)
         run = _Run(self, fi, args, attr_over or {}, depth)
         res = run.run()
+        self.last_returns = run.returns
         self.in_progress.discard(key)
         self.summaries[key] = res
         self.stats["functions"] += 1
@@ -182,6 +183,7 @@ class _Run:
         self.cfg = CFG(fi.node, exc_edges=True)
         an.stats["cfg_nodes"] += len(self.cfg.nodes)
         self.record = False
+        self.returns: List[tuple] = []
         self.hazards: Dict[Tuple[int, str], Hazard] = {}
         self.ret = None
         self.parents = {c: p for p in ast.walk(fi.node) for c in ast.iter_child_nodes(p)}
@@ -254,6 +256,7 @@ class _Run:
                 v = self.ev(a.value, env)
                 if self.record:
                     self.ret = v if self.ret is None else join_val(self.ret, v)
+                    self.returns.append((a, dict(env.vars)))
             return env
         if isinstance(a, ast.Raise):
             self.raise_stmt(a, env)
